@@ -52,6 +52,10 @@ func c10RefRun(rc *RunCtx) *Violation {
 		fly := [2]int{w.InFlight(0, 1), w.InFlight(1, 0)}
 		if !started {
 			started = true
+			if rc.Cfg["wsstart"] == 1 {
+				// the other implementation offers OTR with a whitespace tag of its own making
+				return Step{K: "fwstag", A: r.Intn(6)}, true
+			}
 			return Step{K: "query", A: rc.Cfg["starter"]}, true
 		}
 		// query sendA sendB delAB delBA tick endA smpstartA smpstartB smpanswerA xkeyA xkeyB endB
@@ -116,6 +120,31 @@ func c10RefRun(rc *RunCtx) *Violation {
 		}
 		var res *CallResult
 		switch s.K {
+		case "fwstag":
+			// base tag followed by version tags in the order another client may choose, including
+			// the version 1 tag this library does not implement; exactly the tag is to be removed and
+			// the exchange started in the version the two have in common
+			vx := refotr.WhitespaceV3
+			if b.Ref.Version == 2 {
+				vx = refotr.WhitespaceV2
+			}
+			tags := [][]string{{vx}, {refotr.WhitespaceV1, vx}, {vx, refotr.WhitespaceV1}, {refotr.WhitespaceV1, vx, refotr.WhitespaceV1}, {vx, vx}, {refotr.WhitespaceV1, refotr.WhitespaceV1, vx}}[s.A%6]
+			txt := w.GenText(b, 2, 0)
+			msg := append(cp(txt), []byte(refotr.WhitespaceBase)...)
+			for _, t := range tags {
+				msg = append(msg, []byte(t)...)
+			}
+			sentB = append(sentB, txt)
+			x := w.Put(1, 0, msg, true, -1, -1, "foreign-whitespace-tag")
+			res = w.Deliver(w.Take(1, 0, 0))
+			_ = x
+			if !bytes.Equal(res.Plain, txt) {
+				return fail("wstag.text", fmt.Sprintf("A returned %s for a whitespace-tagged message of another implementation whose text is %s (tag variant %d)", short(res.Plain), short(txt), s.A%6), nil)
+			}
+			if !hasAKEOut(res) {
+				return fail("wstag.no-start", fmt.Sprintf("A (whitespace-start policy, version %d allowed) did not start the key exchange on another implementation's whitespace tag (variant %d), err=%q", b.Ref.Version, s.A%6, res.Err), nil)
+			}
+			w.Fault("foreign-whitespace-tag")
 		case "send":
 			if s.A%2 == 1 {
 				if !b.Ref.Encrypted {
